@@ -16,7 +16,7 @@ EXPLANATION = (
     "R4 Generator::add_module clears every handle table (shared with C03.R1); R5 no iteration over hash containers in "
     "the expander (order of spliced declarations is deterministic); R6 get_key_offset tries the exact path first and "
     "then the path relative to the includer's parent. Behavioural equivalence of split programs is not decided."
-    " ADDED LATER: R7 struct types of different modules must not share a name in the LLVM context (known finding); R8 an exported constant's initialiser is copied verbatim before names are resolved (known finding).")
+    " ADDED LATER: R7 struct types of different modules must not share a name in the LLVM context (known finding); R8 an exported constant's initialiser is copied verbatim before names are resolved (known finding); the linkage table of C03.R2 is shared (private functions and all constants are module-private symbols, so equally named private items of two modules are never merged by the linker).")
 
 DECL = "alpha::common::Declaration"
 
@@ -230,6 +230,8 @@ def check(run):
     r2_expand(run, F)
     r3_compiler_reset(run, F)
     c03.r1_reset(run, F)
+    # private items of different modules meet in one linked LLVM module: they stay apart only while they are private symbols
+    c03.r2_linkage(run, F)
     r6_key_offset(run, F)
     r7_struct_namespace(run, F)
     r8_exported_constant(run, F)
